@@ -97,6 +97,11 @@ def build_df0(spec, shuffle=None, extra=False, split=False):
     for t in range(nd):
       per = 0 if t < spec['n_pre'] else 1 if t < spec['n_pre'] + spec['n_test'] else 2
       recs.append({'geo': 900, 'date': t0 + pd.Timedelta(days=t), 'period': per, 'group': -1, 'response': 77.0 + t, 'cost': 3.0})
+    # dates outside the experiment (period label -1, "unassigned") before the pre-period, for every geo
+    for g in geos:
+      for k in range(1, 4):
+        recs.append({'geo': g['id'], 'date': t0 - pd.Timedelta(days=k), 'period': -1, 'group': g['group'],
+                     'response': 1000.0 * k, 'cost': 50.0})
   df = pd.DataFrame(recs)
   if shuffle is not None:
     df = df.sample(frac=1.0, random_state=shuffle % (2 ** 31)).reset_index(drop=True)
